@@ -29,6 +29,11 @@ class Engine:
         self.R, self.prop = R, prop
         env.install()
         self.mod, self.rt = pyxlite.load(variant, trace=True)
+        if variant == 'asan':
+            maps = open('/proc/self/maps').read()
+            if 'libclang_rt.asan' not in maps or 'shim_asan' not in maps:
+                raise Inconclusive('sanitizer shard is not running under the ASan runtime')
+            R.count('sanitizer:asan-runtime-active')
         import depccg.parsing as P
         self.P = P
         self.history = []
@@ -120,6 +125,11 @@ def gen_case(rng, n_sent=1, nbest=None, family=None, max_n=6, sparse=False, head
 
 
 def case_to_json(case):
+    if case.get('kind') == 'real':
+        return {'kind': 'real', 'lang': case['lang'], 'seen_rules': case['seen_rules'], 'cats': [str(c) for c in case['cats']],
+                'roots': [str(c) for c in case['roots']],
+                'sentences': [[w, t.tolist(), d.tolist()] for w, t, d in case['sentences']], 'config': case['config'],
+                'family': case.get('family'), 'exact': case.get('exact', False)}
     g = case['grammar']
     return {
         'binary': [[x, y, [list(r) for r in res]] for (x, y), res in g.binary.items()],
@@ -132,6 +142,14 @@ def case_to_json(case):
 
 
 def case_from_json(j):
+    if j.get('kind') == 'real':
+        from vlib import realgrammar
+        from depccg.cat import Category
+        b, u, roots = realgrammar.params(j['lang'], j['seen_rules'])
+        return {'kind': 'real', 'lang': j['lang'], 'seen_rules': j['seen_rules'], 'grammar': None, 'binary': b, 'unary': u,
+                'cats': [Category.parse(c) for c in j['cats']], 'roots': [Category.parse(c) for c in j['roots']],
+                'sentences': [(w, np.array(t, dtype=np.float32), np.array(d, dtype=np.float32)) for w, t, d in j['sentences']],
+                'config': j['config'], 'family': j.get('family'), 'exact': j.get('exact', False)}
     g = synth.TableGrammar({(x, y): [tuple(r) for r in res] for x, y, res in j['binary']},
                            {x: [tuple(r) for r in res] for x, res in j['unary']})
     return {'grammar': g, 'binary': synth.BinaryFun(g), 'unary': synth.UnaryFun(g), 'head_left': j.get('head_left'),
